@@ -145,7 +145,7 @@ func main() {
 		g := pl.RandomGraph(c.Rng, 14)
 		c.Emit(caseFields("rnd", g, plansOf(g))...)
 	}
-	for i := c.Count(1500, 20000); i > 0; i-- {
+	for i := c.Count(400, 20000); i > 0; i-- {
 		g := pl.RandomGraph(c.Rng, 40)
 		c.Emit(caseFields("rndbig", g, plansOf(g))...)
 	}
